@@ -11,6 +11,23 @@ open Pybtex.Scanner
 /-- pybtex's command table (as regenerated from /repo) is the reference table -/
 theorem commands_table : Gen.bstCommands = commandTable := by decide
 
+/-- the running interpreter's `int()` digit limit (regenerated) is the reference limit -/
+theorem int_limit : Gen.intMaxStrDigits = intDigitLimit := by decide
+
+theorem mkLiteralE_err {k : TokKind} {v : Str} {l : Nat} {e : Err} (h : mkLiteralE k v l = .error e) :
+    e = .syntaxError "integer literal too long".toList l := by
+  unfold mkLiteralE at h
+  split at h
+  · cases h; rfl
+  · cases h
+
+theorem mkLiteralE_ok {k : TokKind} {v : Str} {l : Nat} {t : Tok} (h : mkLiteralE k v l = .ok t) :
+    t = mkLiteral k v := by
+  unfold mkLiteralE at h
+  split at h
+  · cases h
+  · cases h; rfl
+
 theorem cmdArityM_eq (name : Str) : cmdArityM name = cmdArity name := by
   simp [cmdArityM, cmdArity, commands_table]
 
@@ -150,16 +167,23 @@ theorem parseGroupF_fuel : ∀ (n : Nat) (st : St), st.rest.length < n →
       obtain ⟨⟨k, v⟩, st1⟩ := x
       have h1 := required_ok_shorter _ groupPats_sound _ _ _ _ _ hreq
       have ih1 := ih st1 (by omega)
-      have lit : ∀ r : Except Err (List Tok × St), (match parseGroupF n st1 with
+      have lit : ∀ r : Except Err (List Tok × St), (match mkLiteralE k v st1.line with
             | .error e => (.error e : Except Err (List Tok × St))
-            | .ok (ts, st2) => .ok (mkLiteral k v :: ts, st2)) = r →
+            | .ok t =>
+              match parseGroupF n st1 with
+              | .error e => (.error e : Except Err (List Tok × St))
+              | .ok (ts, st2) => .ok (t :: ts, st2)) = r →
           match r with
           | .error e => e ≠ .outOfFuel
           | .ok (_, st') => st'.rest.length < st.rest.length := by
         intro r hr; subst hr
-        cases hg : parseGroupF n st1 with
-        | error e => rw [hg] at ih1; exact ih1
-        | ok y => obtain ⟨ts, st2⟩ := y; rw [hg] at ih1; simp only at ih1 ⊢; omega
+        cases hm : mkLiteralE k v st1.line with
+        | error e => rw [mkLiteralE_err hm]; simp
+        | ok t =>
+          simp only []
+          cases hg : parseGroupF n st1 with
+          | error e => rw [hg] at ih1; exact ih1
+          | ok y => obtain ⟨ts, st2⟩ := y; rw [hg] at ih1; simp only at ih1 ⊢; omega
       cases k with
       | lbrace =>
         simp only []
@@ -249,6 +273,7 @@ theorem parseF_fuel : ∀ (n : Nat) (st : St), st.rest.length < n →
       | outOfFuel => simp at hc
       | prematureEOF l => simp at he; subst he; simp
       | tokenRequired d l => simp at he; subst he; simp
+      | syntaxError m l => simp at he; subst he; simp
     | ok x =>
       obtain ⟨c, st1⟩ := x
       rw [hpc] at hc he; simp only at hc he
